@@ -31,6 +31,7 @@ CONSTANTS BLen,        \* length of the bit field
           Lens,        \* explicit lengths offered (0 = automatic)
           Starts,      \* explicit positions offered (automatic is always offered)
           MaxNeed,     \* widest value given to an automatic-length field
+          WithAny,     \* explore the permissive post-condition too (every valid layout is a successor)
           TopTried
 
 IdSeq == <<"a", "b", "c", "d", "e">>
@@ -76,7 +77,7 @@ ValidLayouts ==
         G == { g \in [1..n -> 0..(BLen - 1)] : \A i \in 1..n : g[i] \in PosChoices(fields[i]) }
     IN  { lay \in { { Entry(fields[i], g[i]) : i \in 1..n } : g \in G } : LayoutDisjoint(lay, BLen) }
 AssignAny ==
-    /\ phase = "define" /\ how' = "any" /\ UNCHANGED fields
+    /\ WithAny /\ phase = "define" /\ how' = "any" /\ UNCHANGED fields
     /\ IF ValidLayouts = {} THEN phase' = "failed" /\ place' = place
        ELSE phase' = "done" /\ place' \in ValidLayouts
 
